@@ -154,7 +154,8 @@ class Names:
     DIRTY_POOLS = {
         "names.keyword": ["class", "from", "import", "in", "is", "global", "pass", "def", "None", "lambda", "yield", "async", "await", "not", "True"],
         "names.soft_keyword": ["match", "type", "case"],
-        "names.pydantic_attr": ["copy", "json", "dict", "schema", "construct", "validate", "model_fields", "model_config", "model_dump", "parse_obj", "fields"],
+        "names.pydantic_attr": ["copy", "json", "dict", "schema", "construct", "validate", "fields",
+                                "modelDump", "schemaJson", "parseObj", "modelFields", "fromOrm", "modelCopy", "modelExtra"],
         "names.leading_underscore": ["_private", "_Private2", "_camelCase", "_x", "_id"],
         "names.builtin": ["id", "list", "str", "type_", "object", "print", "self", "cls"],
         "names.method_locals": ["query", "variables", "response", "data", "kwargs", "operation_name"],
